@@ -100,6 +100,7 @@ MonInit(p) ==
       osd |-> {},                \* keys the OS sees down
       act |-> FALSE,             \* sequence mode on (reference)
       ttl |-> 0,
+      cm |-> p.mode, ct |-> p.T,   \* mode / timeout in force
       ty |-> <<>>,               \* typed since the mode was entered
       owed |-> {},               \* definitions one of whose virtual keys must now be tapped once
       tapped |-> {},             \* output keys of the virtual keys tapped since the mode was last entered (diagnostics)
@@ -108,43 +109,58 @@ MonInit(p) ==
 
 \* p.s2 = FALSE switches the soft-zone judgement (S2 on a window of key presses) off: used in the
 \* model-checking instances, where the window would multiply the state space
+\* leaders: p.ldr (mode p.mode, timeout p.T) and optionally p.ldr2 = [c, mode, T]
+C12Ldr2(p) == IF "ldr2" \in DOMAIN p THEN p.ldr2.c ELSE 0
+C12IsLdr(p, c) == c # 0 /\ (c = p.ldr \/ c = C12Ldr2(p))
+C12LdrMode(p, c) == IF c = p.ldr THEN p.mode ELSE p.ldr2.mode
+C12LdrT(p, c) == IF c = p.ldr THEN p.T ELSE p.ldr2.T
 C12S2On(m) == IF "s2" \in DOMAIN m.p THEN m.p.s2 ELSE TRUE
 VkOuts(m) == {m.p.defs[d].out : d \in DOMAIN m.p.defs}
 KeySet(m) == SeqToSet(m.p.keys)
+HiddenMode(m) == m.cm # "visible-backspaced"
 
 \* leaving the sharp zone: from here on only S2 is judged, on the key presses seen (those typed so far, then
 \* every further press); a virtual key that is already due stays due
 C12GoSoft(m) == [m EXCEPT !.sync = FALSE, !.pend = <<>>, !.act = FALSE, !.ty = <<>>, !.ttl = 0, !.held = {}, !.stale = {},
-                          !.tapped = {},
+                          !.tapped = {}, !.cm = m.p.mode, !.ct = m.p.T,
                           !.owed = IF C12S2On(m) THEN @ ELSE {},
                           !.recent = IF ~C12S2On(m) THEN <<>> ELSE
                                      LET a == [i \in DOMAIN m.ty |-> m.ty[i].c] \o
-                                              (LET q == SelectSeq(m.pend, LAMBDA x : x[1] = "d" /\ x[2] # m.p.ldr) IN
+                                              (LET q == SelectSeq(m.pend, LAMBDA x : x[1] = "d" /\ ~C12IsLdr(m.p, x[2])) IN
                                                [i \in DOMAIN q |-> q[i][2]])
                                      IN IF Len(a) > m.win THEN SubSeq(a, Len(a) - m.win + 1, Len(a)) ELSE a]
 
 MonIn(m, r) ==
   IF m.err # "" THEN m
+  ELSE IF r.e = "r"
+  \* an OS repeat of a held key is answered at once (r.out).  S4: while a hidden mode is on, the OS must not see a
+  \* typed key go down - a repeat may only re-send keys the OS already sees down
+  THEN LET e == Eff(r.out, m.osd)
+           downs == Codes(KeyDowns(e.eff))
+           m1 == [m EXCEPT !.osd = e.down]
+       IN IF m.sync /\ m.act /\ HiddenMode(m) /\ \E i \in DOMAIN downs : downs[i] \in KeySet(m)
+          THEN Fail(m1, "C12 S4: an OS repeat of a typed key reached the OS while a hidden sequence was in progress")
+          ELSE m1
   ELSE IF r.e \notin {"d", "u"} THEN C12GoSoft(m)
   ELSE
     LET m1 == [m EXCEPT !.phys = IF r.e = "d" THEN @ \cup {r.c} ELSE @ \ {r.c},
-                        !.recent = IF ~m.sync /\ C12S2On(m) /\ r.e = "d" /\ r.c # m.p.ldr
+                        !.recent = IF ~m.sync /\ C12S2On(m) /\ r.e = "d" /\ ~C12IsLdr(m.p, r.c)
                                    THEN LET a == Append(@, r.c) IN
                                         IF Len(a) > m.win THEN SubSeq(a, Len(a) - m.win + 1, Len(a)) ELSE a
                                    ELSE @]
     IN IF ~m.sync THEN m1
-       ELSE IF Len(m.pend) >= C12PendCap \/ (r.c # m.p.ldr /\ r.c \notin KeySet(m))
+       ELSE IF Len(m.pend) >= C12PendCap \/ (~C12IsLdr(m.p, r.c) /\ r.c \notin KeySet(m))
        THEN LET g == C12GoSoft(m1) IN
-            IF C12S2On(m) /\ r.e = "d" /\ r.c # m.p.ldr THEN [g EXCEPT !.recent = Append(@, r.c)] ELSE g
+            IF C12S2On(m) /\ r.e = "d" /\ ~C12IsLdr(m.p, r.c) THEN [g EXCEPT !.recent = Append(@, r.c)] ELSE g
        ELSE [m1 EXCEPT !.pend = Append(@, <<r.e, r.c>>)]
 
 \* ---- the reference step for one processed event -------------------------------------------
 \* result: [m, expK (typed-key downs expected on this tick, in order), expB (backspace taps),
 \*          expV ({} = no virtual key may go down; else exactly one down of a key in the set), soft]
-C12Enter(m) == [m EXCEPT !.act = TRUE, !.ty = <<>>, !.ttl = m.p.T, !.tapped = {}]
+\* cm / ct: the input mode and timeout in force (those of the leader that entered the mode)
+C12Enter(m, mode, T) == [m EXCEPT !.act = TRUE, !.ty = <<>>, !.ttl = T, !.tapped = {}, !.cm = mode, !.ct = T]
 C12Leave(m) == [m EXCEPT !.act = FALSE, !.ty = <<>>, !.ttl = 0]
 TyCodes(m) == [i \in DOMAIN m.ty |-> m.ty[i].c]
-HiddenMode(m) == m.p.mode # "visible-backspaced"
 
 LooseAlive(m, ty) ==
   LET codes == [i \in DOMAIN ty |-> StFold(ty[i].c)] IN
@@ -152,7 +168,7 @@ LooseAlive(m, ty) ==
      LET s == SubSeq(codes, k, Len(codes)) IN Len(s) <= Len(e) /\ SubSeq(e, 1, Len(s)) = s
 
 C12Press(m0, c) ==
-  LET ma == IF m0.p.always /\ ~m0.act THEN C12Enter(m0) ELSE m0
+  LET ma == IF m0.p.always /\ ~m0.act THEN C12Enter(m0, m0.p.mode, m0.p.T) ELSE m0
       m == [ma EXCEPT !.held = @ \cup {c}]
   IN IF ~m.act
      THEN [m |-> m, expK |-> <<c>>, expB |-> 0, soft |-> FALSE]
@@ -166,7 +182,7 @@ C12Press(m0, c) ==
            vis == ~HiddenMode(m)
            codes == [i \in DOMAIN ty |-> ty[i].c]
            shown == IF vis THEN <<c>> ELSE <<>>
-           mt == [m EXCEPT !.ty = ty, !.ttl = m.p.T]
+           mt == [m EXCEPT !.ty = ty, !.ttl = m.ct]
        IN IF ex # {} /\ pr # {}
           \* a defined sequence, and the beginning of a longer one (possible with O-(..) groups although the
           \* table is prefix-free): whether the shorter one fires now or when the keys go up is not documented
@@ -180,7 +196,7 @@ C12Press(m0, c) ==
           ELSE IF pr # {} THEN [m |-> mt, expK |-> shown, expB |-> 0, soft |-> FALSE]
           ELSE IF ~LooseAlive(m, ty)
           THEN [m |-> C12Leave(mt),
-                expK |-> IF m.p.mode = "hidden-delay-type" THEN codes ELSE shown,
+                expK |-> IF m.cm = "hidden-delay-type" THEN codes ELSE shown,
                 expB |-> 0, soft |-> FALSE]
           ELSE [m |-> mt, expK |-> <<>>, expB |-> 0, soft |-> TRUE]
 
@@ -188,10 +204,16 @@ C12Release(m, c) ==
   [m EXCEPT !.held = @ \ {c}, !.stale = @ \ {c},
             !.ty = [i \in DOMAIN @ |-> IF @[i].c = c THEN [@[i] EXCEPT !.rel = TRUE] ELSE @[i]]]
 
-C12Leader(m) ==
+\* docs (sequence-input-mode): "For visible-backspaced and hidden-delay-type, a sequence leader input will be ignored
+\* if a sequence is already active. ... a sequence leader input using hidden-suppressed will reset the key sequence":
+\* it is the mode of the leader just pressed that decides
+C12Leader(m, c) ==
   IF m.stale # {} THEN [m |-> m, soft |-> TRUE]     \* consumed keys still down: what they count as is not documented
-  ELSE IF ~m.act THEN [m |-> C12Enter(m), soft |-> FALSE]
-  ELSE IF m.p.mode = "hidden-suppressed" THEN [m |-> C12Enter(m), soft |-> FALSE]    \* "will reset the key sequence"
+  ELSE IF ~m.act THEN [m |-> C12Enter(m, C12LdrMode(m.p, c), C12LdrT(m.p, c)), soft |-> FALSE]
+  \* a restart that changes a delay-type / visible sequence in progress into a hidden-suppressed one: what happens to the
+  \* keys saved / shown so far is not documented (they are dropped) - judged like any restart
+  ELSE IF C12LdrMode(m.p, c) = "hidden-suppressed"
+  THEN [m |-> C12Enter(m, C12LdrMode(m.p, c), C12LdrT(m.p, c)), soft |-> FALSE]    \* "will reset the key sequence"
   ELSE [m |-> m, soft |-> FALSE]                                                      \* "will be ignored"
 
 \* S2, everywhere: a virtual key goes down only for its own sequence
@@ -219,14 +241,14 @@ MonTick(m, out, idle, cb) ==
          LET ev == IF m0.pend = <<>> THEN <<"none", 0>> ELSE Head(m0.pend)
              m1 == [m0 EXCEPT !.pend = IF @ = <<>> THEN <<>> ELSE Tail(@)]
              \* 1. the event processed on this tick
-             st == CASE ev[1] = "d" /\ ev[2] = m.p.ldr /\ m.p.ldr # 0 ->
-                          LET r == C12Leader(m1) IN [m |-> r.m, expK |-> <<>>, expB |-> 0, soft |-> r.soft, vk |-> FALSE]
+             st == CASE ev[1] = "d" /\ C12IsLdr(m.p, ev[2]) ->
+                          LET r == C12Leader(m1, ev[2]) IN [m |-> r.m, expK |-> <<>>, expB |-> 0, soft |-> r.soft, vk |-> FALSE]
                     [] ev[1] = "d" ->
                           IF m1.stale # {} /\ (m1.act \/ m1.p.always)
                           THEN [m |-> m1, expK |-> <<>>, expB |-> 0, soft |-> TRUE, vk |-> FALSE]
                           ELSE LET r == C12Press(m1, ev[2]) IN
                                [m |-> r.m, expK |-> r.expK, expB |-> r.expB, soft |-> r.soft, vk |-> FALSE]
-                    [] ev[1] = "u" /\ ev[2] # m.p.ldr ->
+                    [] ev[1] = "u" /\ ~C12IsLdr(m.p, ev[2]) ->
                           [m |-> C12Release(m1, ev[2]), expK |-> <<>>, expB |-> 0, soft |-> FALSE, vk |-> FALSE]
                     \* the virtual key's own output is a key press like any other: if the mode is on again by now
                     \* (a key typed within a tick or two of the completing one) it lands in the new sequence - not documented
@@ -235,13 +257,13 @@ MonTick(m, out, idle, cb) ==
              \* 2. the timeout: T ticks after the last typed key (or the leader)
              m2 == IF ev[1] \in {"d", "u"} THEN [st.m EXCEPT !.tapped = {}] ELSE st.m
              expire == m2.act /\ m2.ttl <= 1
-             flush == IF expire /\ m2.p.mode = "hidden-delay-type" THEN TyCodes(m2) ELSE <<>>
+             flush == IF expire /\ m2.cm = "hidden-delay-type" THEN TyCodes(m2) ELSE <<>>
              m3 == IF expire THEN C12Leave(m2)
                    ELSE IF m2.act THEN [m2 EXCEPT !.ttl = @ - 1] ELSE m2
              expK == st.expK \o flush
          IN IF st.soft
             THEN \* the key just processed belongs to the presses S2 looks at
-                 LET tyc == IF ev[1] = "d" /\ ev[2] # m.p.ldr
+                 LET tyc == IF ev[1] = "d" /\ ~C12IsLdr(m.p, ev[2])
                             THEN Append(m1.ty, [c |-> ev[2], mm |-> 0, h |-> 0, rel |-> FALSE]) ELSE m1.ty
                  IN C12GoSoft([m3 EXCEPT !.pend = m1.pend, !.ty = tyc])
             \* ---- judgement of this tick's output
@@ -257,7 +279,7 @@ MonTick(m, out, idle, cb) ==
             THEN Fail(m3, IF Len(kdowns) > Len(expK)
                           THEN (IF m1.act \/ m2.act THEN "C12 S4: a typed key was pressed at the OS while the sequence was in progress (or typed keys were replayed without a failure)"
                                 ELSE "C12: an unexpected key press was sent")
-                          ELSE (IF flush # <<>> \/ (m1.act /\ ~m2.act /\ m2.p.mode = "hidden-delay-type")
+                          ELSE (IF flush # <<>> \/ (m1.act /\ ~m2.act /\ m2.cm = "hidden-delay-type")
                                 THEN "C12 S4: hidden-delay-type did not type the saved keys when the sequence failed"
                                 ELSE IF m1.act THEN "C12 S4: visible-backspaced did not show the typed key"
                                 ELSE "C12 S1/S3: sequence mode was not left (a key pressed afterwards did not come out)"))
